@@ -33,6 +33,8 @@ pub(super) fn execute_index_seek<'a, S: GraphSnapshot + 'a>(
     };
 
     if let Some(mut node_ids) = snapshot.lookup_index(label, field, &prop_val) {
+        // Index entries of deleted nodes are not removed at commit; never return them.
+        node_ids.retain(|iid| !snapshot.is_tombstoned_node(*iid));
         node_ids.sort();
         let alias = alias.to_string();
         PlanIterator::Dynamic(Box::new(
